@@ -25,7 +25,7 @@ def run(ctx):
     lib_variant.traversal_push(ctx, P, tus=["trees"])
     funcs = {"tsk_tree_check_node", "tsk_tree_seek", "tsk_tree_seek_index", "tsk_tree_set_tracked_samples"}
     seen = lib_guards.analyse(ctx, P, funcs=funcs)
-    lib_guards.presence(ctx, seen, funcs=funcs)
+    lib_guards.presence(ctx, seen, funcs=funcs, P=P)
     lib_module.module_guards(ctx, P, only=ms)
     lib_module.parsed_used(ctx, P, only=ms)
     lib_py.null_index(ctx, py)
